@@ -282,6 +282,10 @@ pub struct World {
     pub state_hashes: std::collections::BTreeSet<u64>,
     pub drain_cap: u64,
     pub track_states: bool,
+    /// keep every yielded Showdown alive until the end of the run and digest it
+    /// again then (a showdown is a value: it must not change after it was yielded)
+    pub retain: bool,
+    pub retained: Vec<(usize, u64, espada::evaluator::Showdown)>,
     task_hash: Vec<u64>,
     state_acc: u64,
 }
@@ -369,6 +373,8 @@ impl World {
             state_hashes: Default::default(),
             drain_cap: 50_000_000,
             track_states: true,
+            retain: false,
+            retained: vec![],
             task_hash: vec![],
             state_acc: 0,
         }
@@ -424,10 +430,25 @@ impl World {
             return false;
         }
         let mut st = self.tasks[ti].stepper.take().unwrap();
-        let (st, out) = self.pool.call(exec, move || {
-            let o = st.step();
-            (st, o)
+        let retain = self.retain;
+        let (st, out, kept) = self.pool.call(exec, move || {
+            if retain {
+                match st.step_raw() {
+                    Ok(Some(sd)) => {
+                        let o = digest(&sd, &st.dm);
+                        (st, o, Some(sd))
+                    }
+                    Ok(None) => (st, Out::End, None),
+                    Err(m) => (st, Out::Panic(m), None),
+                }
+            } else {
+                let o = st.step();
+                (st, o, None)
+            }
         });
+        if let (Some(sd), Out::Yield { h, .. }) = (kept, &out) {
+            self.retained.push((ti, *h, sd));
+        }
         self.next_calls += 1;
         let t = &mut self.tasks[ti];
         t.stepper = Some(st);
@@ -601,6 +622,27 @@ impl World {
             }
         }
         did
+    }
+
+    /// Digest every retained showdown again, on another thread than the scheduler's
+    /// when executors exist. Returns the first one whose digest changed since it
+    /// was yielded: (task, index among retained, digest then, digest now).
+    pub fn recheck_retained(&mut self) -> Option<(usize, usize, u64, u64)> {
+        let kept = std::mem::take(&mut self.retained);
+        let flops: Vec<[u8; 3]> = self.tasks.iter().map(|t| self.scens[t.spec.scen].scen.flop).collect();
+        let exec = if self.pool.len() > 0 { 0 } else { INLINE };
+        self.pool.call(exec, move || {
+            let shared = std::sync::Arc::new(kept);
+            for (i, (ti, h, sd)) in shared.iter().enumerate() {
+                let dm = DeckMap::new(&flops[*ti]);
+                if let Out::Yield { h: now, .. } = digest(sd, &dm) {
+                    if now != *h {
+                        return Some((*ti, i, *h, now));
+                    }
+                }
+            }
+            None
+        })
     }
 
     pub fn any_runnable(&self) -> bool {
